@@ -34,7 +34,8 @@ if [ -n "$DEMOS" ] && [ -z "${NODEMO:-}" ]; then
   esac
   i=0
   for d in $DEMOS; do i=$((i+1)); cp "$d" "$WT/$PKGDIR/zz_seeded_demo${i}_test.go"; done
-  rundemo() { unshare -rn sh -c "ip link set lo up; cd $WT && timeout 600 go test -vet=off -count=1 -timeout 9m -run 'TestSeededDemo' ./$PKGDIR" > "$OUT/$TAG.demo.$1.log" 2>&1; }
+  PAT=$(cat $DEMOS | sed -n 's/^func \(Test[A-Za-z0-9_]*\)(.*/\1/p' | paste -sd'|')
+  rundemo() { unshare -rn sh -c "ip link set lo up; cd $WT && timeout 600 go test -vet=off -count=1 -timeout 9m -run '^($PAT)\$' ./$PKGDIR" > "$OUT/$TAG.demo.$1.log" 2>&1; }
   rundemo without; rc=$?
   if [ $rc -eq 0 ] && grep -q '^ok' "$OUT/$TAG.demo.without.log"; then say "demo-without-change: PASS"; else say "demo-without-change: FAIL(rc=$rc) !!"; fi
 fi
